@@ -792,7 +792,7 @@ def hexs(bs):
 def render_pat(p):
     k = p["p"]
     if k == "discard":
-        return "_"
+        return p.get("name", "_")
     if k == "var":
         return p["x"]
     if k == "as":
@@ -984,7 +984,7 @@ def render_module(g):
 def clean(e):
     """drop renderer-only annotations so that the spec sees only what it evaluates"""
     if isinstance(e, dict):
-        drop = {"pipe", "labelled", "pts", "ret", "sty", "ety", "targs", "implicit"}
+        drop = {"pipe", "labelled", "pts", "ret", "sty", "ety", "targs", "implicit", "name"}
         out = {}
         for k, v in e.items():
             if k in drop:
